@@ -23,8 +23,12 @@ if VERIF not in sys.path:
 
 from symx import core, trace, notorch  # noqa: E402
 
-if os.environ.get('SYMX_WITH_TORCH') != '1':
-    notorch.install()
+TORCH_PIDS = {'C14'}     # harnesses that exercise the torch dispatch; everything else blocks the (slow) torch import
+
+
+def _maybe_block_torch(pid):
+    if os.environ.get('SYMX_WITH_TORCH') != '1' and pid not in TORCH_PIDS:
+        notorch.install()
 from symx.core import SymEnv, ConcEnv, explore, run_concrete, HarnessError  # noqa: E402
 
 EVIDENCE_DIR = os.path.join(VERIF, 'evidence')
@@ -54,6 +58,7 @@ def finding_key(mod, cfg, name):
 
 def run_config(pid, cfg, tier, seed, timeout_ms, max_paths):
     """worker: explore one configuration symbolically, replay failures concretely"""
+    _maybe_block_torch(pid)
     mod = importlib.import_module(f"vcheck.{pid}")
     env = SymEnv(timeout_ms=timeout_ms, seed=seed, max_paths=max_paths)
     trace.start()
@@ -121,6 +126,7 @@ def load_known(pid):
 
 
 def replay_file(pid, path):
+    _maybe_block_torch(pid)
     mod = importlib.import_module(f"vcheck.{pid}")
     with open(path) as fh:
         rp = json.load(fh)
@@ -157,6 +163,7 @@ def main(argv=None):
         seed = int(os.environ.get('VERIF_SEED', '0'))
     except ValueError:
         seed = 0
+    _maybe_block_torch(pid)
     mod = importlib.import_module(f"vcheck.{pid}")
     tier = args.tier
     t0 = time.time()
